@@ -23,12 +23,16 @@ func init() {
 func genMergeInventory(r *vk.RNG, n int, maxRecs int) []CSpec {
 	inv := make([]CSpec, n)
 	base := int64(1700000000) * 1e9
+	nonMono := r.Chance(1, 4)
 	for i := range inv {
 		cs := CSpec{ID: fmt.Sprintf("id%02d", i), Name: fmt.Sprintf("/c%d", i), Image: "img", State: "running", Labels: map[string]string{"idx": fmt.Sprint(i)}}
 		k := r.Range(0, maxRecs)
 		if r.Chance(1, 6) {
 			k = 0
 		}
+		// one inventory in four has containers whose own log is NOT time-ordered: exactly-once and
+		// own-order are unconditional, only the global time order is conditional on ordered inputs
+		backwards := nonMono && r.Chance(1, 2)
 		ts := base + int64(r.Intn(4))*1e9
 		for j := 0; j < k; j++ {
 			switch r.Intn(4) {
@@ -39,6 +43,9 @@ func genMergeInventory(r *vk.RNG, n int, maxRecs int) []CSpec {
 				ts += int64(r.Intn(3)) * 5e8
 			default:
 				ts += int64(r.Intn(1000)) + 1
+			}
+			if backwards && r.Chance(1, 4) {
+				ts -= int64(r.Range(1, 3)) * 7e8 // this container's clock stepped back
 			}
 			typ := byte(1 + r.Intn(2))
 			cs.Frames = append(cs.Frames, Frame{Type: typ, TS: ts, Body: fmt.Sprintf("c%d#%d", i, j)})
@@ -77,6 +84,22 @@ func drainSelect(fd *FakeDocker) ([]mergedRec, error, error) {
 	return out, nil, iterErr
 }
 
+// abandonMerge opens a merge, reads at most k records and closes it.
+func abandonMerge(fd *FakeDocker, k int) int {
+	q := dockerQuerier(fd)
+	it, err := q.SelectLogs(context.Background(), otelstorage.Timestamp(1600000000e9), otelstorage.Timestamp(1800000000e9), logqlengine.SelectLogsParams{})
+	if err != nil {
+		return -1
+	}
+	var rec logstorage.Record
+	n := 0
+	for n < k && it.Next(&rec) {
+		n++
+	}
+	_ = it.Close()
+	return n
+}
+
 // checkMerged is the offline checker: exactly-once, time order, per-container order, origin labels.
 func checkMerged(inv []CSpec, got []mergedRec) string {
 	want := map[string]int64{}
@@ -85,6 +108,14 @@ func checkMerged(inv []CSpec, got []mergedRec) string {
 		for _, f := range c.Frames {
 			want[f.Body] = f.TS
 			owner[f.Body] = c.ID
+		}
+	}
+	ordered := true
+	for _, c := range inv {
+		for j := 1; j < len(c.Frames); j++ {
+			if c.Frames[j].TS < c.Frames[j-1].TS {
+				ordered = false
+			}
 		}
 	}
 	seen := map[string]int{}
@@ -108,7 +139,7 @@ func checkMerged(inv []CSpec, got []mergedRec) string {
 		if g.CID != owner[g.Line] {
 			return fmt.Sprintf("position %d: record %q carries labels of container %q, produced by %q", i, g.Line, g.CID, owner[g.Line])
 		}
-		if i > 0 && got[i-1].TS > g.TS {
+		if ordered && i > 0 && got[i-1].TS > g.TS {
 			return fmt.Sprintf("position %d: timestamp decreases (%d after %d)", i, g.TS, got[i-1].TS)
 		}
 		c := byID[g.CID]
@@ -138,13 +169,20 @@ func runC04(r *vk.Run) {
 	r.SetRule("inventories of N containers with time-ordered logs (unique line ids, ties within/across containers, empty logs) are merged by dockerlog.Querier.SelectLogs over a fake Docker client whose ContainerLogs calls are gated; " +
 		"phase orders: ALL N! completion orders for N=0..5; phase sampled: 24 random orders for N=6..8; phase stress: ungated 64-container merges. Offline checker: exactly-once, time order, per-container order, origin labels, same sequence for every order. " +
 		"non-trivial = distinct (inventory, completion order) with >=2 containers and >=1 record. All runs under the Go race detector.")
-	r.Assume("per-container logs are time-ordered (precondition of the statement)", "gating controls the order in which ContainerLogs calls return; the goroutine's store of its iterator follows within a few scheduler yields")
+	r.Assume("global time order is asserted only when every container's own log is time-ordered (one inventory in four has clock step-backs; exactly-once, own order and order-independence are asserted regardless)", "gating controls the order in which ContainerLogs calls return; the goroutine's store of its iterator follows within a few scheduler yields")
 	r.SetExhaustive(true)
 	if !raceEnabled {
 		r.Inconclusive("binary not built with -race")
 	}
 
 	runOrder := func(c *vk.Case, inv []CSpec, order []int, ref *string) bool {
+		if len(inv) >= 2 && c.Rng.Chance(1, 3) {
+			// an earlier merge of the same process that was closed before it was drained (a query that
+			// hit its limit): nothing of it may leak into the merge under observation
+			if n := abandonMerge(newFakeDocker(inv), c.Rng.Range(0, 3)); n >= 0 {
+				c.Count("abandoned_merges_before", 1)
+			}
+		}
 		fd := newFakeDocker(inv)
 		var g *orderGate
 		if order != nil && len(inv) >= 2 {
